@@ -2,6 +2,8 @@
 pub fn main(args: &[String]) -> i32 {
     match args.first().map(|s| s.as_str()) {
         Some("c18") => super::p18::worker_main(&args[1..]),
+        Some("c19") => super::p19::worker_main(&args[1..]),
+        Some("c19-one") => super::p19::worker_one(&args[1..]),
         Some("c18-timing") => super::p18::timing_main(),
         _ => 2,
     }
